@@ -1,3 +1,4 @@
+import FluentProofs.ConstTieSyntax
 import FluentProofs.ParserLines
 /-!
 # C03 — syntax errors are contained: Junk accounting and per-entry recovery
